@@ -49,7 +49,7 @@ CLAIM = ("lowp fast approximation glm::inversesqrt(vec<L,float,lowp>), L = 1..4,
 BOUNDS = ("x: every positive normal binary32 value, bits 0x00800000..0x7f7fffff (2^-126 <= x < 2^128), fully symbolic (biased exponent and mantissa); vector lengths 1-4, every component; "
           "no unwinding (straight-line code).  quick: bit-precise RANGE lemmas once per class of components whose terms agree up to the order of commutative operands; thorough: every component, "
           "plus bit-precise interval proof on [1,4) for the vec1 instance.")
-OUTSIDE = ("x = 0, subnormal x (the approximation is NOT accurate there: e.g. x = 2^-127 gives relative error about -3.6e-2, x = 0 gives a finite value), negative x, inf, NaN; "
+OUTSIDE = ("x = 0, subnormal x (the approximation is NOT accurate there: e.g. x = 2^-127 (bits 0x00400000) gives Y*sqrt(x)-1 = -3.8e-2, x = 0 gives the finite value 1.98e19), negative x, inf, NaN; "
            "aligned (SIMD) lowp qualifiers; the trusted IEEE facts listed in ASSUMPTIONS (binary32 encoding; correct rounding of fp.mul/fp.sub) are not re-derived bit-precisely for all binades - "
            "only for x in [1,4) in the thorough tier.")
 ASSUMPTIONS = ['IEEE-754 binary32 encoding: a pattern with biased exponent 1 <= e <= 254 and mantissa m denotes 2^(e-127)*(1+m/2^23), with e = 0 it denotes m*2^-149 (used to turn the proved integer relations between fields into real relations; 2^(a+b) = 2^a*2^b)',
@@ -58,6 +58,8 @@ ASSUMPTIONS = ['IEEE-754 binary32 encoding: a pattern with biased exponent 1 <= 
                'that fp.mul on binary32 equals rounding the exact product is the definition of the operation (SMT-LIB FloatingPoint theory) and is not re-proved',
                'the real relaxation of the integer fields (M real in [0, 2^23-1], M>>1 real in [M/2-1/2, M/2]) over-approximates the integers',
                'IEEE multiplication/addition are commutative (components whose terms differ only in operand order share the quick-tier RANGE lemmas)']
+EXPLANATION = ('lowp inversesqrt accuracy: lemma chain FIELDS (bit-vectors) -> DECODE (trusted IEEE encoding) -> ZRANGE (nlsat) ; HALF, RANGE (bit-precise IEEE) -> STDMODEL (trusted correct rounding, '
+               'supported by stdmodel.* lemmas) ; HOM (identity) ; MAINZ (nlsat) ; COMPOSE (nlsat); see the module docstring of props/c01_lowp.py')
 TRUSTED = ['props/c01_lowp.py: generic walker from the z3 FP term to its standard-model real abstraction (fp.mul/fp.add/fp.sub/constants/bit-cast leaves, RNE only; anything else is reported as not encoded)']
 
 U = Unit('c01lowp', includes=['glm/glm.hpp'])
@@ -135,11 +137,13 @@ def walk(t, A):
     A.memo[t.get_id()] = r
     return r
 
+_SYM = {}
 class Comp:
     """one output component: symbolic term of the real code and its abstraction"""
     def __init__(s, L, k):
         s.L = L; s.k = k; s.fname = 'isq%d' % L; s.name = 'c01lowp.isq%d[%d]' % (L, k)
-        res = sym_call(U, s.fname, mode='fp')
+        if L not in _SYM: _SYM[L] = sym_call(U, s.fname, mode='fp')        # one symbolic execution per length (forked job processes inherit the terms built in jobs())
+        res = _SYM[L]
         s.res = res; s.a = res.ins[0][k]; s.Y = res.outs[0][k]
         s.side = res.obligations; s.axioms = res.axioms
         s.A = Absn(s.a)
@@ -417,13 +421,17 @@ def prove_interval(S, c, B, nfree, label, depth=0):
     Lb, Hb = interval_bounds(B, nfree)
     exact = depth >= 3
     if exact: g = dict((l, t) for l, t in exact_goals(c.a, c.Y.fp))[label]
-    else: g = (c.Y.bits >= bv(Lb, 32)) if label == 'lo' else z3.And(c.Y.bits <= bv(Hb, 32), c.Y.bits >= 0)       # signed comparisons: negative floats are negative integers
+    else:       # FP comparisons (cvc5 has no fp.to_ieee_bv): NaN fails both, -x and +inf fail 'hi', so lo and hi together give finite, positive, within bounds
+        g = z3.fpGEQ(c.Y.fp, fpof(bv(Lb, 32))) if label == 'lo' else z3.And(z3.fpLEQ(c.Y.fp, fpof(bv(Hb, 32))), z3.fpGT(c.Y.fp, FPV(0.0)))
     name = '%s.bits[%#010x+2^%d].%s' % (c.name, B, nfree, label)
-    bd = 'bit-precise IEEE, inputs %#010x..%#010x; %s' % (B, B + (1 << nfree) - 1, 'exact specification' if exact else ('Y >= %#x' % Lb if label == 'lo' else '0 < Y <= %#x' % Hb))
+    bd = 'bit-precise IEEE, inputs %#010x..%#010x; %s' % (B, B + (1 << nfree) - 1, 'exact specification' if exact else ('Y >= %s (bits %#x)' % (bits_to_float(Lb, 32), Lb) if label == 'lo' else '0 < Y <= %s (bits %#x)' % (bits_to_float(Hb, 32), Hb)))
     t = S.cap(120, 300)
-    r, m, dt, used = S.query(hy + [z3.Not(g)], t, 'z3')
+    # cvc5 (symfpu) is about twice as fast as z3 on these queries; z3 is the fallback
+    r, m, dt, used = S.query(hy + [z3.Not(g)], min(t, 90), 'cvc5', vars_=[c.a])
+    if r == 'unknown':
+        r, m, dt2, used2 = S.query(hy + [z3.Not(g)], t, 'z3'); dt += dt2; used = used + '+' + used2
     if r == 'sat':
-        xb = m.eval(c.a, model_completion=True).as_long()
+        xb = m.get(c.a.sexpr(), 0) if isinstance(m, dict) else m.eval(c.a, model_completion=True).as_long()
         bad, info = native_eval(c, xb)
         if bad:
             S.rec(name=name, kind='spec', functions=FNTXT(c.L), bounds=bd, solver=used, result=r, time_s=round(dt, 3), mandatory=True, status='counterexample', replay='reproduced', replay_info=info)
